@@ -130,6 +130,9 @@ func (t *StreamUnderlay) Close() error {
 	// Unblock any pending I/O before closing sessions.
 	t.conn.SetDeadline(time.Now())
 	t.baseUnderlay.Close()
+	// The event loop may have re-armed its read timeout while the sessions
+	// were closing. Unblock it again now that the underlay is done.
+	t.conn.SetDeadline(time.Now())
 	return nil
 }
 
@@ -367,6 +370,13 @@ func (t *StreamUnderlay) readOneSegment() (*segment, error) {
 
 	common.SetReadTimeout(t.conn, readOneSegmentTimeout)
 	defer common.SetReadTimeout(t.conn, 0)
+	select {
+	case <-t.done:
+		// Close() sets its last deadline after closing t.done. Do not
+		// wait for the timeout that was just armed.
+		return nil, nil
+	default:
+	}
 
 	// Read encrypted metadata.
 	readLen := MetadataLength + cipher.DefaultOverhead
